@@ -46,4 +46,10 @@ META = {
         "note": "Recency of generated files follows the engine's rule (deeper level older; within level 0 higher sequence/timestamp newer); files inside deeper levels do not overlap. Tombstone retention by wall-clock age (24 h) is out of reach. Crash = process death at hook sites. Trusted: generation-time view, map model.",
         "technique": "metamorphic live-view equality over generated SSTable sets and engine workloads; crash points inside compaction (rapid)",
     },
+    "C18": {
+        "text": "Generated put/delete histories with arbitrary (non-monotone, repeated, 0, 2^64-1) sequence numbers run against one MemTable and against a MemTablePool; after every step the whole state is compared with a multi-version-map model: Get returns the highest sequence number (among equal numbers the latest insertion), iterators yield every version key-ascending/sequence-descending, Seek lands on the first entry at or after the target, immutable tables stay frozen, pool Get answers from the newest table holding the key. Concurrent part: one writer and 1-8 readers on the real structure; every reader observation must contain everything completed before it began and only inserted entries, sorted; any race report of the Go race detector inside pkg/memtable is a violation.",
+        "design_ref": "DESIGN.md section 5, C18",
+        "note": "Trusted: the Go race detector, the sequentially consistent progress counter, the model. Schedules are sampled, not enumerated; a concurrent replay re-executes the workload up to 60 times. The tie clause (latest insertion wins among equal key and sequence) is grounded in ApplyBatch, WAL replay and flushMemTable.",
+        "technique": "model-based property testing + invariants over recorded concurrent observations under the race detector (rapid)",
+    },
 }
